@@ -87,7 +87,7 @@ def check(R, F, P, cfg):
     R.inst("R6.1", "finalizing-pass-frees-nothing", not bad and k >= 1, "%d path(s) after a finalizing pass: no deallocate_list, re-buffered: %s" % (k, bad or "yes"), where=col.span, cfg=cfg)
     ms = anchor(F, PC + "mark_self_and_append")
     S3 = Super(P, ms, opaque=DO - {ms.npath})
-    heads = loop_heads_applying(S3, lambda x: is_call(x, CM + "reset_tracing_counter"))
+    heads = applied_to_every_element(S3, lambda x: is_call(x, CM + "reset_tracing_counter"))
     R.inst("R6.1", "rebuffer-resets-counters", bool(heads), "mark_self_and_append resets the tracing counter of every element it marks (loop head found: %s)" % bool(heads), where=ms.span, cfg=cfg)
 
     # ---- R6.3 termination ----------------------------------------------------------------------------------------------
